@@ -11,6 +11,7 @@ mod m_index;
 mod m_life;
 mod m_stack;
 mod props;
+mod selftest;
 mod spec;
 
 use engine::{Report, ViolationRec};
@@ -259,6 +260,16 @@ fn main() {
             cmd_run(prop, &tier, &out, &rd)
         }
         Some("replay") => cmd_replay(args.get(2).expect("replay file")),
+        Some("selftest") => match selftest::run() {
+            Ok(m) => {
+                println!("{m}");
+                0
+            }
+            Err(e) => {
+                eprintln!("SELFTEST FAILED: {e}");
+                2
+            }
+        },
         Some("list") => {
             for p in props::ALL {
                 for tier in ["quick", "thorough"] {
